@@ -543,3 +543,97 @@ func ZZ_C12_addr_step() {
 	zz.Assert(zzSameState(w), "C12.post-state/Addr")
 	zz.Assert(zz.LocksHeld() == 0, "C12.no-lock-left-held/Addr")
 }
+
+// ZZ_C12_copy_binding_kinds: a copy is an independent snapshot whatever the
+// bindings hold.  The tables store reflect.Values, and a Value made by
+// Define(name, nil) or handed to DefineValue from reflect.New(T).Elem() is a
+// settable *cell*: a copy that shares such a cell is only independent as long
+// as no operation stores through it.  Bindings of three kinds x copy / deep
+// copy (taken at the scope or below it) x a later Set / Define / Delete on
+// either side, through the scope itself or through a child of it.
+func ZZ_C12_copy_binding_kinds() {
+	kind := zz.Choose(4)
+	v, w := zz.Int64(), zz.Int64()
+	root := NewEnv()
+	var err error
+	switch kind {
+	case 0:
+		err = root.Define("a", v)
+	case 1:
+		err = root.Define("a", nil) // the nil binding is a fresh addressable interface cell
+	case 2:
+		cell := reflect.New(reflect.TypeOf(int64(0))).Elem()
+		cell.SetInt(v)
+		err = root.DefineValue("a", cell)
+	case 3:
+		var x interface{} = v
+		err = root.DefineValue("a", reflect.ValueOf(&x).Elem()) // what a script's `a = v; &a` relies on
+	}
+	zz.Assert(err == nil, "C12.copy-binding-kinds/define")
+	child := root.NewEnv()
+	deep := zz.Choose(2) == 1
+	fromChild := zz.Choose(2) == 1
+	var cp *Env
+	switch {
+	case deep && fromChild:
+		cp = child.DeepCopy().parent
+	case deep:
+		cp = root.DeepCopy()
+	default:
+		cp = root.Copy()
+	}
+	zz.Assert(cp != nil && cp != root, "C12.copy-binding-kinds/copy-is-new-scope")
+	if cp == nil {
+		return
+	}
+	read := func(e *Env) (int64, bool, bool) { // value, isNil, found
+		x, gerr := e.Get("a")
+		if gerr != nil {
+			return 0, false, false
+		}
+		if x == nil {
+			return 0, true, true
+		}
+		i, ok := x.(int64)
+		return i, false, ok
+	}
+	b0, n0, f0 := read(cp)
+	o0, on0, of0 := read(root)
+	zz.Assert(f0 && of0 && n0 == on0 && (n0 || b0 == o0), "C12.copy-binding-kinds/copy-holds-the-same-binding")
+	side := zz.Choose(2) // 0: operate on the original, observe the copy; 1: the reverse
+	target, observed := root, cp
+	if side == 1 {
+		target, observed = cp, root
+	}
+	via := target
+	if zz.Choose(2) == 1 {
+		via = target.NewEnv() // Set from a descendant scope reaches the nearest binding
+	}
+	op := zz.Choose(4)
+	id := []string{"plain", "nil-cell", "int64-cell", "interface-cell"}[kind] + "/" + []string{"copy", "deepcopy"}[zz.Ite(deep, 1, 0)] + "/" +
+		[]string{"set", "set-nil", "define", "delete"}[op] + "/" + []string{"on-original", "on-copy"}[side]
+	switch op {
+	case 0:
+		err = via.Set("a", w)
+		zz.Assert(err == nil, "C12.copy-binding-kinds/set/"+id)
+	case 1:
+		err = via.Set("a", nil)
+		zz.Assert(err == nil, "C12.copy-binding-kinds/set/"+id)
+	case 2:
+		err = target.Define("a", w)
+	case 3:
+		target.Delete("a")
+	}
+	b1, n1, f1 := read(observed)
+	zz.Assert(f1 && n1 == n0 && (n1 || b1 == b0), "C12.copy-independent/binding-kinds/"+id)
+	// and the operation did reach its own side
+	t1, tn1, tf1 := read(target)
+	switch op {
+	case 0, 2:
+		zz.Assert(tf1 && !tn1 && t1 == w, "C12.copy-binding-kinds/operation-took-effect/"+id)
+	case 1:
+		zz.Assert(tf1 && tn1, "C12.copy-binding-kinds/operation-took-effect/"+id)
+	case 3:
+		zz.Assert(!tf1, "C12.copy-binding-kinds/operation-took-effect/"+id)
+	}
+}
